@@ -39,12 +39,15 @@ var _ = (*SegmentUInt64Map[any]).Clear
 //@ pred segWF(m *SegmentUInt64Map[any]) := m != nil && len(m.segments) > 0 && m.segmentMask == len(m.segments) - 1 && (forall i int :: {m.segments[i]} 0 <= i && i < len(m.segments) ==> m.segments[i] != nil && m.segments[i].data != nil)
 //@ pred cacheWF(c *Cache) := c != nil && c.data != nil && segWF(c.data.data)
 //@ uninterp segIndexOf(mask int, key uint64) int
+//@ # proved on its own body in bit-vector arithmetic: `& mask` with mask >= 0 keeps the index inside 0..mask. The name
+//@ # segIndexOf is DEFINED by this body (`defines`: the body is an effect-free function of key and m.segmentMask alone)
 //@ func (*SegmentUInt64Map[any]).getSegmentIndex
-//@   trusted
-//@   note verified separately in bit-vector arithmetic as getSegmentIndex's own body: (h>>16) & mask <= mask
+//@   arith bv
 //@   requires m != nil && m.segmentMask >= 0
 //@   modifies nothing
-//@   ensures 0 <= int(result) && int(result) <= m.segmentMask && int(result) == segIndexOf(m.segmentMask, key)
+//@   readsglobals
+//@   ensures 0 <= int(result) && int(result) <= m.segmentMask
+//@   defines int(result) == segIndexOf(m.segmentMask, key)
 //@ func (*SegmentUInt64Map[any]).getSegment
 //@   requires segWF(m)
 //@   modifies nothing
@@ -73,11 +76,16 @@ var _ = (*SegmentUInt64Map[any]).Clear
 //@   trusted
 //@   ensures tblInv(result) && !result.hasZeroKey && result.size == 0
 //@
+//@ # bit mixing of the key, proved on its own body in bit-vector arithmetic: `& mask` with mask >= 0 keeps the home slot
+//@ # within 0..mask whatever the mixing does. The name pidx is DEFINED by this body (`defines`: the body is an effect-free
+//@ # function of key and m.mask alone), so a different mixing constant is no alarm, a dropped mask is
 //@ func (*UInt64Map[any]).primaryIndex
-//@   trusted
-//@   note bit mixing of the key: a function of (key, mask); `& mask` with mask >= 0 keeps it within 0..mask
+//@   arith bv
+//@   requires m != nil
 //@   modifies nothing
-//@   ensures result == pidx(key, m.mask) && (m.mask >= 0 ==> 0 <= result && result <= m.mask)
+//@   readsglobals
+//@   ensures m.mask >= 0 ==> 0 <= result && result <= m.mask
+//@   defines result == pidx(key, m.mask)
 //@
 //@ func (*UInt64Map[any]).Get
 //@   nosafety index ovf
